@@ -97,7 +97,13 @@ Definition sig_eqb (a b : sig) : bool :=
    only records; APostRaise t appends a callback that records `t` and, the
    first time one of this listener's callbacks runs, raises *)
 Inductive act := ALog | ASet (c : col) (v : val) | ADel (c : col) | APost (tag : Z)
-               | ARaise | APostRaise (tag : Z).
+               | ARaise | APostRaise (tag : Z)
+               | AMake | APostMake (tag : Z).
+(* AMake: the listener creates a row of a third ("audit") class; APostMake t:
+   it appends a callback that records `t` and creates such a row.  The audit
+   class, its rows and its own events are OUTSIDE this model (the harness
+   strips them from the observed trace; the oracle of tools/props/c19.py judges
+   them directly): here AMake is ALog and APostMake t is APost t. *)
 Definition listener := (sig * act)%type.
 
 Inductive write (K : Type) :=
@@ -156,6 +162,7 @@ Definition post_items (s : sig) (L : list (Z * act)) : list (Z * Z * bool) :=
                      then match snd l with
                           | APost t => [(t, fst l, false)]
                           | APostRaise t => [(t, fst l, true)]
+                          | APostMake t => [(t, fst l, false)]
                           | _ => []
                           end
                      else []) L.
